@@ -4,8 +4,8 @@
 set -e
 g=$1; shift
 cd /verif/checker
-cp -r /tmp/wk/$g/out2/checker/* . 
-mkdir -p /verif/docs/reports && cp /tmp/wk/$g/out2/REPORT2.md /verif/docs/reports/${g}_round2.md 2>/dev/null || true
+cp -r /tmp/wk/$g/${ROUND:-out2}/checker/* . 
+mkdir -p /verif/docs/reports && cp /tmp/wk/$g/${ROUND:-out2}/REPORT${RN:-2}.md /verif/docs/reports/${g}_${ROUND:-out2}.md 2>/dev/null || true
 export GOFLAGS=-mod=vendor GOPROXY=off
 gofmt -l rules kit; go vet ./... && go build -o /verif/bin/mmverify . && echo built
 cd /verif
